@@ -969,7 +969,7 @@ MERGE_ASSUME = ["TransformModularDSLToProto (lexer+parser+listener) is replaced 
 def merge_jobs(tier, harness, pols):
     jobs = []
     n = W(tier, 2, 2)
-    for scen, extra in ((1, {"SEPS": 1}), (2, {}), (3, {"N": 1, "NR": 2}), (4, {}), (5, {"NR": 1}), (0, {"F": 2, "DECLS": W(tier, 3, 4), "RELS": W(tier, 1, 2), "CONDS": 1, "FAULTS": 0}),
+    for scen, extra in ((1, {"SEPS": 1}), (2, {}), (3, {"N": 1, "NR": 2}), (4, {}), (5, {"NR": 2}), (0, {"F": 2, "DECLS": W(tier, 3, 4), "RELS": W(tier, 1, 2), "CONDS": 1, "FAULTS": 0}),
                         (0, {"F": 2, "DECLS": 2, "RELS": 1, "CONDS": 1, "FAULTS": 1, "N": 1})):
         params = dict({"SCEN": scen, "N": n, "NR": 1}, **extra)
         jobs.append(T("transformer", harness, params, **pols))
